@@ -1,5 +1,6 @@
 import IstioModel.Common.Wire
 import IstioModel.C15.Model
+import IstioModel.C15.Decide
 
 /-! Line-protocol driver for C15 (stream `order`). See harness/c15/main.go for the line formats. -/
 namespace IstioModel.C15
@@ -151,7 +152,6 @@ was computed from.  Used by checks/C15.py to key known findings. -/
 namespace IstioModel.C15
 open IstioModel.Wire
 
-def epKey (e : IEp) : String := e.addr ++ "|" ++ e.portName
 
 def dropTopo (l : Labels) : Labels :=
   (normLabels l).filter fun kv => !(kv.1 == "topology.kubernetes.io/region" || kv.1 == "topology.kubernetes.io/zone")
@@ -205,13 +205,54 @@ def classify (final o c : Ctl) : List String :=
   let hosts := (akeys o.smap ++ akeys c.smap).eraseDups
   sortStrings (hosts.flatMap (classifyHost final o c)).eraseDups
 
-def stepC (s : State) (toks : List String) : State × String :=
+/-- classify stream state: the model state and the operations of the case so far (reversed) -/
+structure CState where
+  s : State := {}
+  ops : List Op := []
+
+/-- does the history lie in the class of `convergence_any_order` (every step good)?  `-` for
+    histories with `hold` (outside the class by definition) -/
+def goodTok (ops : List Op) : String :=
+  if ops.any (fun o => decide (o = Op.hold)) then "-"
+  else if decide (AllGood {} ops) then "1" else "0"
+
+/-- the side conditions of `convergence_to_derive` on the final objects -/
+def sideOK (c : Ctl) : Bool :=
+  decide (WF c) && decide (NoCachedAddr c) && decide (NoPodAtUntargeted c) &&
+    (c.svcs.all fun sv => decide (DistinctB c sv.host))
+
+/-- the conclusion of `convergence_to_derive`, evaluated: per hostname same service, same endpoint
+    set, same service-account set when there are endpoints -/
+def agreesWithDerive (c : Ctl) : Bool :=
+  ((akeys c.smap ++ c.svcs.map Svc.host).eraseDups).all fun h =>
+    match hostView c h, derive c h with
+    | some v, some d =>
+      decide (v.svc = d.svc) && showIEps v.eps == showIEps d.eps &&
+        (v.eps.isEmpty || showSas v.sas == showSas d.sas)
+    | none, none => true
+    | _, _ => false
+
+def stepClassify (cs : CState) (toks : List String) : CState × String :=
   match toks with
+  | "case" :: _ => ({}, "-")
   | ["cold", order] =>
-    let s' := release s
+    let s' := release cs.s
     let cold := coldRun (finalOps (sortedFinal s'.c) (parseOrder order))
     let cls := classify s'.c s'.c cold.c
-    (s', if showView s'.c = showView cold.c then "same" else "cls=" ++ (if cls.isEmpty then "unexplained" else ",".intercalate cls))
-  | _ => ((stepD s toks).1, "-")
+    let ops := cs.ops.reverse
+    let g := goodTok ops
+    let verdict := if showView s'.c = showView cold.c then "same" else
+      "cls=" ++ (if cls.isEmpty then "unexplained" else ",".intercalate cls)
+    ({ cs with s := s' }, verdict ++ " good=" ++ g ++ " side=" ++ boolTok (sideOK s'.c) ++ " derive=" ++
+      boolTok (agreesWithDerive s'.c))
+  | _ =>
+    let s' := (stepD cs.s toks).1
+    let ops := match toks with
+      | ["hold"] => Op.hold :: cs.ops
+      | ["release"] => Op.release :: cs.ops
+      | _ => match parseOp toks with
+        | some op => if (applyOp cs.s op).isSome then op :: cs.ops else cs.ops
+        | none => cs.ops
+    ({ s := s', ops := ops }, "-")
 
 end IstioModel.C15
